@@ -114,10 +114,10 @@ func (h *hz) pickNet(rng *rand.Rand) wire.BitcoinNet {
 func (h *hz) emit(in []byte, net wire.BitcoinNet, sub string) {
 	h.idx++
 	frameID := h.caseID + "/" + utoa(uint64(h.idx))
+	pver := h.t.pickPver(h.pv) // drawn before the replay filter: skipped frames consume the stream too
 	if h.r.Only != "" && h.r.Only != h.caseID && h.r.Only != frameID {
 		return
 	}
-	pver := h.t.pickPver(h.pv)
 	enc := wire.BaseEncoding
 	if h.idx&1 == 1 {
 		enc = wire.LatestEncoding
@@ -152,6 +152,10 @@ func (h *hz) judge(in []byte, pver uint32, net wire.BitcoinNet, enc wire.Message
 		}
 		return d
 	}
+	if h.class == clNonCanon && strings.HasSuffix(sub, "@count") {
+		h.count("noncanonical_count_varint_frames", 1)
+		h.count("noncanonical_count_varint_accepted", 0)
+	}
 	if rerun {
 		h.count("watchdog_reruns", 1)
 	}
@@ -172,6 +176,10 @@ func (h *hz) judge(in []byte, pver uint32, net wire.BitcoinNet, enc wire.Message
 		outcomeTag = "decoded"
 		h.count("hostile_decoded", 1)
 		h.count("decoded|"+h.class, 1)
+		if h.class == clNonCanon && strings.HasSuffix(sub, "@count") {
+			// not demanded by the statement (weakest reading): evidence only
+			h.count("noncanonical_count_varint_accepted", 1)
+		}
 		if e.mustReject != "" {
 			d := detail()
 			d["decoded"] = trunc(fmt.Sprintf("%T %+v", o.msg, o.msg), 1500)
@@ -202,7 +210,7 @@ func (h *hz) judge(in []byte, pver uint32, net wire.BitcoinNet, enc wire.Message
 		}
 	}
 	// allocation monitor
-	if !h.dec.tainted {
+	if !h.dec.tainted && !rerun {
 		bound := t.allocBound(&e, len(in))
 		h.count(ratioBucket(o.alloc, bound), 1)
 		h.count(ampBucket(o.alloc, len(in)), 1)
@@ -358,7 +366,7 @@ func (h *hz) runCase(cmd, class string, scale, frames int) {
 			f, net := base(smallOrMedium())
 			for j, n := 0, 1+rng.Intn(3); j < n; j++ {
 				pos := rng.Intn(len(f))
-				if rng.Intn(5) < 2 {
+				if rng.Intn(5) == 0 {
 					pos = rng.Intn(hdrSize)
 				}
 				f[pos] ^= 1 << uint(rng.Intn(8))
@@ -416,7 +424,13 @@ func (h *hz) runCase(cmd, class string, scale, frames int) {
 			f, net := base(smallOrMedium())
 			plen := uint64(len(f) - hdrSize)
 			mpl := uint64(k.fresh().MaxPayloadLength(wire.ProtocolVersion))
-			vals := []uint64{plen + 1, plen + 255, mpl, mpl + 1, t.maxMsg, t.maxMsg + 1, 1 << 31, 0xffffffff, uint64(rng.Uint32())}
+			vals := []uint64{plen + 1, plen + 255, mpl + 1, t.maxMsg + 1, 1 << 31, 0xffffffff, uint64(rng.Uint32())}
+			if i == 0 || mpl <= 4<<20 {
+				// announcing the full limit makes the reader allocate it up front: once per case for the 256 MiB kinds
+				vals = append(vals, mpl, t.maxMsg)
+			} else {
+				vals = append(vals, uint64(rng.Int63n(4<<20)))
+			}
 			if plen > 0 {
 				vals = append(vals, plen-1, 0)
 			}
@@ -540,7 +554,11 @@ func (h *hz) runCase(cmd, class string, scale, frames int) {
 					v = 1
 				}
 				for _, fo := range []byte{0xfd, 0xfe, 0xff} {
-					h.emit(frame(net, cmd, splicePayload(p, at, varint(v, fo), false)), net, fmt.Sprintf("%02x", fo))
+					sub := fmt.Sprintf("%02x", fo)
+					if at == k.countOffset {
+						sub += "@count"
+					}
+					h.emit(frame(net, cmd, splicePayload(p, at, varint(v, fo), false)), net, sub)
 				}
 			}
 			if k.countOffset >= 0 && k.countOffset < len(p) {
@@ -601,9 +619,9 @@ func (h *hz) runCase(cmd, class string, scale, frames int) {
 				}
 				sub = "random"
 			}
-			if rng.Intn(4) == 0 {
+			if rng.Intn(10) == 0 {
 				// with an announced length far beyond the input (the discard path)
-				binary.LittleEndian.PutUint32(f[16:20], uint32(rng.Int63n(int64(t.maxMsg)+1)))
+				binary.LittleEndian.PutUint32(f[16:20], uint32(rng.Int63n(int64(t.maxMsg>>uint(rng.Intn(16)))+1)))
 				sub += "+long"
 			}
 			h.emit(f, net, sub)
